@@ -1005,3 +1005,109 @@ Theorem C09_a64_seeded_defect2_refuted :
   (exists s', final_state ex13_code_bad ex13_state = Some s' /\ lget s' A64MemLoadChain.ex_sp (tpos 6) <> Some 777).
 Proof. exact defect2_refutes_load. Qed.
 Print Assumptions C09_a64_seeded_defect2_refuted.
+
+(* ====================================================================================== *)
+(* RISC-V (worker rvchain): store (Let / Create) and load (Switch / Invoke) of objects of ANY number of fields, the
+   code of lang/axcut2rv64/src/memory.rs `store` / `store_fields` / `load` / `load_fields` (with block positions) as
+   transliterated in Model/RV.v (`r_store`, `r_load`), on Sem/RVSem.v.  Proof/RVMemStoreChain.v, RVMemLoadChain.v.
+   `RVHeapAbs.abs_heap F s` abstracts a RISC-V state (HEAP = X2, FREE = X3, header = word 0 of a block, pointer slots =
+   the words at 16/32/48); `RVHeapAbs.is_blk` / `st_eqB` are convertible with the x86-64 ones above (the ISA models
+   place the heap at the same addresses), so the abstract side - `fsts`, `alloc_object_pre`, `alloc_object_acq`,
+   `wblocks`, `waddrs`, `lf_share_ok`, `lf_addrs` - is literally shared with x86-64 / AArch64.  RISC-V has no spill
+   slots: the temporary of position k is the register X(k + 4) (`RVHMem.rtp`).  `RVSel.star` is the small-step closure
+   that C08 ties to the executable machine (`C08_run_chunk_one`); `RVSel.placed` = code and labels of the fragment
+   sit in the image (`C08_placed_mk_image`).  The allocator operations themselves: `C08_rv_share_block_heap`,
+   `C08_rv_erase_block_heap`, `C08_rv_release_block_heap`, `C08_rv_acquire_block_heap` (Props/C08.v). *)
+From SCC Require Proof.RVSel Proof.RVHeapAbs Proof.RVHMem Proof.RVMemStoreChain Proof.RVMemLoadChain Proof.RVMemChainExample.
+From SCC Require Model.RV Sem.RVSem.
+
+(* any number of fields (chains): r_store = Heap.alloc_object *)
+Theorem C09_rv_store :
+  forall im pos (to_store remaining : ctx) lc cs lc' s F val,
+    RV.r_store to_store remaining lc = Ok (cs, lc') -> to_store <> nil ->
+    RVSel.placed im pos cs ->
+    RVHMem.vals_ok s val (length remaining) to_store ->
+    let E := length remaining in let n := length to_store in let k := Heap.nlinks n in
+    let fields := fsts val E to_store in
+    alloc_object_pre fields (RVHeapAbs.abs_heap F s) ->
+    NoDup (alloc_object_acq fields (RVHeapAbs.abs_heap F s)) ->
+    let res := Heap.alloc_object fields (RVHeapAbs.abs_heap F s) in
+    exists s', RVSel.star im pos s (RVSel.padd pos (length cs)) s' /\
+      RVHeapAbs.st_eqB (RVHeapAbs.abs_heap (Heap.frontier (snd res)) s') (snd res) /\
+      RVSem.rget s' (RVHMem.rtp (2 * N.of_nat E)) = Some (fst res) /\
+      (forall q, (q < 2 * N.of_nat E)%N -> RVSem.rget s' (RVHMem.rtp q) = RVSem.rget s (RVHMem.rtp q)) /\
+      wblocks k (RVSel.hword s') (fst res) = rev (alloc_object_acq fields (RVHeapAbs.abs_heap F s)) /\
+      Forall RVHeapAbs.is_blk (wblocks k (RVSel.hword s') (fst res)) /\
+      (let A := waddrs k (RVSel.hword s') (fst res) in
+       (forall i b, nth_error to_store i = Some b ->
+          let a := nth (length A - n + i) A 0 in
+          RVSel.hword s' a = fst_slot val (E + i) b /\ RVSel.hword s' (a + 8) = snd_slot val (E + i)) /\
+       (forall j, (j < length A - n)%nat -> RVSel.hword s' (nth j A 0) = 0)) /\
+      (forall a, ~ RVHeapAbs.is_blk a -> (forall b, In b (alloc_object_acq fields (RVHeapAbs.abs_heap F s)) -> a < b \/ b + 64 <= a) ->
+         RVSel.hword s' a = RVSel.hword s a).
+Proof. exact RVMemStoreChain.rv_store_chain. Qed.
+Print Assumptions C09_rv_store.
+
+(* no field: the null pointer, no allocation *)
+Theorem C09_rv_store_empty :
+  forall im pos (remaining : ctx) lc cs lc' s,
+    RV.r_store nil remaining lc = Ok (cs, lc') -> RVSel.placed im pos cs ->
+    lc' = lc /\
+    exists s', RVSel.star im pos s (RVSel.padd pos (length cs)) s' /\
+      RVSem.rget s' (RVHMem.rtp (2 * N.of_nat (length remaining))) = Some 0 /\
+      (forall r, r <> RVHMem.rtp (2 * N.of_nat (length remaining)) -> RVSem.rget s' r = RVSem.rget s r) /\
+      (forall a, RVSel.hword s' a = RVSel.hword s a).
+Proof. exact RVMemStoreChain.rv_store_empty. Qed.
+Print Assumptions C09_rv_store_empty.
+
+(* any number of fields, both modes (header 0: every block of the chain released, head first; otherwise the head's count
+   decremented and every loaded pointer shared): r_load = Heap.load_object (nlinks n) p *)
+Theorem C09_rv_load :
+  forall im pos (to_load existing : ctx) lc cs lc' s p F,
+    RV.r_load to_load existing lc = Ok (cs, lc') -> to_load <> nil ->
+    RVSel.placed im pos cs ->
+    RVSem.rget s (RVHMem.rtp (2 * N.of_nat (length existing))) = Some p -> RVHeapAbs.is_blk p ->
+    (exists h, RVSem.rget s RV.HEAP = Some h) -> (exists f0, RVSem.rget s RV.FREE = Some f0) ->
+    lf_share_ok (S (length to_load)) (RVSel.hword s) to_load X86.Last p ->
+    (forall x, RVHeapAbs.is_blk x -> AxSem.min_int + 1 <= RVSel.hword s x /\ RVSel.hword s x + Z.of_nat (length to_load) <= AxSem.max_int) ->
+    exists s', RVSel.star im pos s (RVSel.padd pos (length cs)) s' /\
+      RVHeapAbs.st_eqB (RVHeapAbs.abs_heap F s') (Heap.load_object (Heap.nlinks (length to_load)) p (RVHeapAbs.abs_heap F s)) /\
+      (forall i b, nth_error to_load i = Some b ->
+         let A := lf_addrs (S (length to_load)) (RVSel.hword s) to_load X86.Last p in
+         let a := nth (length A - length to_load + i) A 0 in
+         RVSem.rget s' (RVHMem.rtp (2 * N.of_nat (length existing + i) + 1)) = Some (RVSel.hword s (a + 8)) /\
+         (bchi b <> AxSyn.Ext -> RVSem.rget s' (RVHMem.rtp (2 * N.of_nat (length existing + i))) = Some (RVSel.hword s a))) /\
+      (forall k, (k < 2 * N.of_nat (length existing))%N -> RVSem.rget s' (RVHMem.rtp k) = RVSem.rget s (RVHMem.rtp k)) /\
+      RVMemLoadChain.nonblk_same s s' /\ (exists h', RVSem.rget s' RV.HEAP = Some h') /\ RVSem.rget s' RV.FREE = RVSem.rget s RV.FREE.
+Proof. exact RVMemLoadChain.rv_load_chain. Qed.
+Print Assumptions C09_rv_load.
+
+(* non-vacuity: a 5-field object (2 blocks) stored behind three variables on a fresh heap; a SHARED 2-block object with
+   five fields loaded behind three variables (X8 = `rtp 4`, a register of the existing context, keeps its value) *)
+Example C09_rv_store_example :
+  let a := RVHeapAbs.abs_heap (RVSem.HEAP_BASE + 64) RVMemChainExample.ex5_state in
+  let res := Heap.alloc_object (fsts RVMemChainExample.ex5_val 3 RVMemChainExample.ex5_store) a in
+  exists lc', RV.r_store RVMemChainExample.ex5_store RVMemChainExample.ex5_rem 0 = Ok (RVMemChainExample.ex5_code, lc') /\
+  fsts RVMemChainExample.ex5_val 3 RVMemChainExample.ex5_store = 0 :: 108 :: 0 :: 112 :: 0 :: nil /\
+  fst res = RVSem.HEAP_BASE + 64 /\ Heap.frontier (snd res) = RVSem.HEAP_BASE + 192 /\
+  exists s', RVSel.star (RVSem.mk_image RVMemChainExample.ex5_code) 1 RVMemChainExample.ex5_state
+               (RVSel.padd 1 (length RVMemChainExample.ex5_code)) s' /\
+     RVHeapAbs.st_eqB (RVHeapAbs.abs_heap (RVSem.HEAP_BASE + 192) s') (snd res) /\
+     RVSem.rget s' (RVHMem.rtp 6) = Some (RVSem.HEAP_BASE + 64) /\
+     wblocks 1 (RVSel.hword s') (RVSem.HEAP_BASE + 64) = (RVSem.HEAP_BASE + 64) :: RVSem.HEAP_BASE :: nil /\
+     RVSel.hword s' (RVSem.HEAP_BASE + 64 + 16 + 8) = 107 /\ RVSel.hword s' (RVSem.HEAP_BASE + 64 + 32) = 108 /\
+     RVSel.hword s' (RVSem.HEAP_BASE + 48 + 8) = 115.
+Proof. exact RVMemChainExample.rv_store_example. Qed.
+Print Assumptions C09_rv_store_example.
+
+Example C09_rv_load_example :
+  exists lc', RV.r_load RVMemChainExample.ex5_store RVMemChainExample.ex3_existing 0 = Ok (RVMemChainExample.ex3_code, lc') /\
+  RVSel.hword RVMemChainExample.ex3_state RVSem.HEAP_BASE = 1 /\ RVSem.rget RVMemChainExample.ex3_state (RVHMem.rtp 4) = Some 777 /\
+  exists s', RVSel.star (RVSem.mk_image RVMemChainExample.ex3_code) 1 RVMemChainExample.ex3_state
+               (RVSel.padd 1 (length RVMemChainExample.ex3_code)) s' /\
+     RVHeapAbs.st_eqB (RVHeapAbs.abs_heap (RVSem.HEAP_BASE + 256) s')
+       (Heap.load_object 1 RVSem.HEAP_BASE (RVHeapAbs.abs_heap (RVSem.HEAP_BASE + 256) RVMemChainExample.ex3_state)) /\
+     RVSem.rget s' (RVHMem.rtp 7) = Some 11 /\ RVSem.rget s' (RVHMem.rtp 8) = Some (RVSem.HEAP_BASE + 128) /\
+     RVSem.rget s' (RVHMem.rtp 15) = Some 55 /\ RVSem.rget s' (RVHMem.rtp 4) = Some 777.
+Proof. exact RVMemChainExample.rv_load_example. Qed.
+Print Assumptions C09_rv_load_example.
